@@ -10,7 +10,7 @@ import numpy as np
 from .. import fileio as fio
 from . import c07, c08
 
-THEOREMS = ["session_form", "readFile_form", "C01_roundtrip", "C01_header_fields", "C01_pure"]
+THEOREMS = ["session_form", "readFile_form", "C01_roundtrip", "C01_header_fields", "C01_pure", "C01_idempotent"]
 hx = c08.hx
 
 
